@@ -1,11 +1,13 @@
 /-
   Props/C13.lean — serializing input data into a Value is total and faithful.
   (`Ser.serialize` transcribes `ValueSerializer` over the serde data model; the theorems below are the
-  features of a "structurally faithful image" the property lists.  The serde_json clause is checked by the
-  correspondence harness against `serde_json::to_value`, not yet as a theorem.)
+  features of a "structurally faithful image" the property lists.  The serde_json clause is `ser_matches_json`:
+  `Spec/Json.lean` models `serde_json::to_value` on the data model and the JSON reading of a `Value`; both are
+  compared with the real `serde_json` on every case of the correspondence run.)
 -/
 import RevalModel.Impl.Ser
 import RevalModel.Lemmas.Sorted
+import RevalModel.Lemmas.Json
 
 namespace Reval.C13
 open Ser
@@ -170,7 +172,21 @@ theorem evaluate_factors (env : Env) (rules : List Expr) (input : SerVal) :
   simp only [evaluate] at h
   split at h <;> simp_all
 
+/-- **the serde_json clause**: whenever serialization succeeds on JSON-representable data (finite floats, integers
+    within 64 bits, at every depth), the image read as JSON is exactly `serde_json`'s image of the same data — for
+    every value of the data model, of any size and nesting -/
+theorem ser_matches_json (v : SerVal) (x : Value) (h : serialize v = .ok x) (hr : JsonSpec.JsonRep v = true) :
+    JsonSpec.jsonOf v = JsonSpec.toJson x := JsonSpec.json_all.1 v x h hr
+
+/-- … in particular for sequences, element by element -/
+theorem ser_matches_json_list (xs : List SerVal) (vs : List Value) (h : serializeList xs = .ok vs)
+    (hr : JsonSpec.JsonRepList xs = true) : JsonSpec.jsonOfList xs = JsonSpec.toJsonList vs :=
+  JsonSpec.json_all.2.2.2 xs vs h hr
+
 /-! non-vacuity -/
+example : JsonSpec.JsonRep (.structVariant ['E'] ['V'] [(['b'], .int IntKind.u8 2), (['a'], .some (.seq [.bool true, .none]))]) = true ∧
+    JsonSpec.jsonOf (.structVariant ['E'] ['V'] [(['b'], .int IntKind.u8 2), (['a'], .some (.seq [.bool true, .none]))]) =
+      .obj [(['V'], .obj [(['a'], .arr [.bool true, .null]), (['b'], .int 2)])] := ⟨rfl, rfl⟩
 example : serialize (.structVariant ['E'] ['V'] [(['b'], .int IntKind.u8 2), (['a'], .some (.seq [.bool true, .none]))])
     = .ok (.map [(['V'], .map [(['a'], .vec [.bool true, .none]), (['b'], .int 2)])]) := by decide
 example : serialize (.map [(.int IntKind.u8 1, .unit)]) = .err (.ser []) := by decide
